@@ -19,6 +19,7 @@ from harness.gen_engine_tables import render
 logging.getLogger("werkzeug").setLevel(logging.ERROR)
 
 KF_RACE = "C05:unit.execute:events-put-between-queue.Empty-and-liveness-test-are-dropped"
+DRIVERS = ("Engine",)
 EXTRA_TARGETS = ("SV.Props.C05",)
 
 
